@@ -24,6 +24,9 @@ type AuthDecision struct {
 	Kind    string `json:"kind"`              // approve | derive | refuse
 	Status  int    `json:"status,omitempty"`  // refuse
 	Payload string `json:"payload,omitempty"` // refuse: custom JSON payload ("" = standard error)
+	// CancelCtx: the callback hands back a context that is already done (e.g. its own WithTimeout
+	// context after a deferred cancel) - a legal behaviour of user code
+	CancelCtx bool `json:"cancel_ctx,omitempty"`
 }
 
 // CtlScript is what the simulated controller does.
@@ -89,9 +92,19 @@ func authHook(ctx context.Context, engineReq any, check runtime.SecurityCheck) (
 			json.Unmarshal([]byte(d.Payload), &payload)
 			se.CustomError = &runtime.CustomError{Payload: payload}
 		}
+		if d.CancelCtx {
+			c, cancel := context.WithCancel(ctx)
+			cancel()
+			return c, se
+		}
 		return ctx, se
 	case "derive":
 		s.event("AuthResult", "approve "+key)
+		if d.CancelCtx {
+			c, cancel := context.WithCancel(context.WithValue(ctx, simKey, "tok-"+t.Plan.ID+"-"+key))
+			cancel()
+			return c, nil
+		}
 		return context.WithValue(ctx, simKey, "tok-"+t.Plan.ID+"-"+key), nil
 	default:
 		s.event("AuthResult", "approve "+key)
